@@ -77,6 +77,14 @@ class EPModel(KModel):
             ans = bool(self.scn.get('fast'))
             self.events.append(('typeid-guard', a.d['ty'], b.d['ty'], ans))
             return ans if op == 'eq' else (not ans)
+        if isinstance(a, Dim) and isinstance(b, Dim) and a.key() != b.key() and \
+                not any(n.startswith('B') or n == 'b0' for _, n in a.items + b.items) and any(n.startswith('Y') for _, n in a.items + b.items):
+            # the two query arrays' dimensions compared (raw_dim() == raw_dim() is shape() == shape())
+            same = bool(self.scn.get('qshape_ok', True))
+            self.qassert.append((repr(a), repr(b), same, len(self.sinks)))
+            if same:
+                self._refine(a, b)
+            return same if op == 'eq' else (not same)
         if isinstance(a, Dim) and isinstance(b, Dim):
             if a.key() == b.key():
                 same = True
@@ -329,6 +337,8 @@ class EPModel(KModel):
             if not is_axis0(args[1]):
                 raise Unsupported("axis_iter_mut over an axis other than Axis(0)", e)
             return Obj('axis_iter_mut', of=v)
+        if last == 'outer_iter_mut':
+            return Obj('axis_iter_mut', of=v)       # outer_iter_mut() is axis_iter_mut(Axis(0))
         if last in ('slice_each_axis_mut', 'slice_each_axis'):
             return self.slice_each_axis(v, args[1], e)
         if last == 'slice_each_axis_inplace':
@@ -342,6 +352,10 @@ class EPModel(KModel):
                 raise Unsupported("index_axis_move at a component of the query index on something other than the leading axis of the buffer", e)
             return Obj('view', root=d['root'], rootkind=d['rootkind'], shape=d['shape'], lead='qidx-partial', ones=Rat.const(0),
                        base_shape=d.get('base_shape') or d['shape'], qdrop=d.get('qdrop', Rat.const(0)) + 1)
+        if last == 'index_axis_move' and d['rootkind'] == 'scalarbuf' and is_axis0(args[1]) and d['shape'].key() == (('s', '1'),) and \
+                isinstance(deref_all(args[2]), Num) and deref_all(args[2]).const() == 0:
+            # the only element of the 1-element scalar buffer as a 0-d view (same as remove_axis(Axis(0)) on a length-1 axis)
+            return Obj('view', root=d['root'], rootkind='scalarbuf', shape=Dim([]), lead=None, ones=Rat.const(0))
         if last == 'index_axis_move':
             i = deref_all(args[2])
             if not (is_axis0(args[1]) and isinstance(i, Num) and i.const() == 0 and d.get('lead') == 'qidx-unit'):
